@@ -495,11 +495,12 @@ def run_case(case):
     for w in range(nworld):
       _apply_mj(twins[w], inp[w])
       mujoco.mj_step(mjm, twins[w])
+      was_alive = alive[w]
       if alive[w]:
         alive[w] = _compare_world(rec, mjm, d_np, twins[w], w, f"world {w} step {k} t={k}h (start {start})")
         rec.count("lockstep_world_steps")
       # independent delay line: applied control of plain delayed motors
-      if dl is not None and alive[w]:
+      if dl is not None and was_alive:
         for li, (ai, mult, ns, ip, rngc) in enumerate(plain):
           line = dl[w][li]
           u = float(inp[w]["ctrl"][ai])
